@@ -727,7 +727,9 @@ SAFE_URLS = ["http://tracker.example.com/announce", "udp://t1.example.org:6969/a
              "ftp://ftp.example.site/content", "http://h/a:b", "http://tr.example/announce?tags=a,b", "http://h/x,y;z"]
 SAFE_WORDS = ["hello", "a comment with spaces", "Ünï cødé", "x", "SRC", "k=v", "semi;colon", "日本語", "a:b", "[x]",
               # characters an ini reader may give a meaning of their own when they follow a blank
-              "Release #3 ; final", "a ;b", "x # y", "100% done", "%(name)s", "$HOME", "tail = value", "colon: value"]
+              "Release #3 ; final", "a ;b", "x # y", "100% done", "%(name)s", "$HOME", "tail = value", "colon: value",
+              # words a configuration reader may take for a boolean or for nothing
+              "no", "on", "1", "0", "yes", "off", "none", "true", "False"]
 
 
 def _c20_argv(case, path, out):
